@@ -68,7 +68,7 @@ PROPS = {
         "assumptions": SIM_ASSUME,
     },
     "C06": {
-        "stages": [sim(20, 360), real(8, 150)],
+        "stages": [sim(20, 360), real(12, 150)],
         "rule": "random DAGs incl. injected ordering cycles (must be rejected with a real cycle listed, nothing of the cycle started) and validation-only cycles (must be accepted), generated manifests settled in phase 1, all -j/-k/pool combinations, systematic completion orders on small cases; hang = wait with nothing running / scheduler iterations without events beyond 4*steps+16 / panic; non-trivial = >= 3 steps with a step waiting for >= 2 producers, or a cyclic case; black box: dependency chains of 500-2000 steps (thorough: also 60000, known finding F13) through `-t restat` must be walked without a crash",
         "must_observe": ["events", "cyclic_cases", "validation_cycle_cases"],
         "assumptions": SIM_ASSUME,
